@@ -32,6 +32,12 @@ const smtPreamble = `(set-option :produce-models true)
 (assert (forall ((s Str)) (! (>= (slen s) 0) :pattern ((slen s)))))
 (assert (forall ((s Str)) (! (=> (= (slen s) 0) (= s str_empty)) :pattern ((slen s)))))
 (assert (= (itag 0) 0))
+(declare-sort SeqStr 0)
+(declare-fun seq_nil () SeqStr)
+(declare-fun seq_snoc (SeqStr Str) SeqStr)
+(declare-fun seq_cat (SeqStr SeqStr) SeqStr)
+(declare-fun seq_of_str ((Array Int Str) Int Int) SeqStr)
+(assert (forall ((a (Array Int Str)) (o Int)) (! (= (seq_of_str a o 0) seq_nil) :pattern ((seq_of_str a o 0)))))
 `
 
 func sAnd(xs ...string) string {
